@@ -24,6 +24,7 @@ func checkC07(c *Ctx, r *Report) {
 	c07R5(c, r)
 	c07RdataLexErr(c, r)
 	c07GenerateWidth(c, r)
+	c07ParseBounds(c, r)
 	// errors inside an included file name that file: the sub-parser is given the path that was opened
 	{
 		sub := newReport("tmp", r.Tier)
